@@ -469,6 +469,7 @@ func checkC07(c *Ctx) {
 			agg[k].bad = bad
 		}
 	}
+	ccRegion := caseRegion(fn, dv, ccType)
 	for _, p := range paths {
 		if p.End != "return" {
 			continue
@@ -575,8 +576,14 @@ func checkC07(c *Ctx) {
 			note(k, bad)
 			continue
 		}
-		// bidirectional: which side?
-		fas := floatAtoms(p)
+		// bidirectional: which side? (decided by the comparisons made inside the controller case, not by the sign tests of the
+		// shaping stage in front of it, which become path conditions when that stage lives in helper functions)
+		var fas []floatAtom
+		for _, fa := range floatAtoms(p) {
+			if in := p.Atoms[fa.idx].Instr; in != nil && ccRegion[in.Block()] {
+				fas = append(fas, fa)
+			}
+		}
 		side := ""
 		if _, ok := hasFloat(fas, "<", 0); ok {
 			side = "neg"
